@@ -29,6 +29,7 @@ import WntrModel.Lemmas.AmlCsrIf
 import WntrModel.Lemmas.AmlRealFull
 import WntrModel.Model.EvalShape
 import WntrModel.Gen.EvaluatorShape
+import WntrModel.Lemmas.AmlNan
 import Mathlib.Analysis.Normed.Field.Lemmas
 
 namespace Wntr.Aml
@@ -664,5 +665,31 @@ theorem evaluator_loops_are_as_transliterated :
       "if:_evaluate(stack,&(if_else_condition_rpn[condition_ndx]),&(leaves[con_ndx]))==1", "if:found",
       "for:inti=0;i<nnz;++i", "for:intj=0;j<nnz;++j"] := by
   refine ⟨?_, ?_, ?_, ?_⟩ <;> decide +kernel
+
+
+/-! ## 13. with a NaN element -/
+
+/-- **rpn_correct_nan.** Over the value domain `NV` (NaN absorbing for arithmetic, every comparison with NaN false,
+`NaN == 1` false; `Lemmas/AmlNan.lean`): the C++ stack machine run on the RPN of a tree returns `eval` — in particular an
+`if_else` whose UNSELECTED branch evaluates to NaN returns the selected branch's value, and an `inequality` of a NaN body
+is 0. (Inequalities without any bound are excluded: `Model/Expr.lean` evaluates them to the constant 1, the machine
+computes `-inf <= nan <= inf` = 0.) -/
+theorem rpn_correct_nan (env : Env NV) (vals : Nat → NV) (ndx : TLeaf → Nat)
+    (hv : ∀ l, vals (ndx l) = leafVal nanOps nanInf env l) (e : Expr) (hb : boundedIneqs e = true) :
+    evalRpn nanOps vals (toRpn ndx e) = some (eval nanOps env e) :=
+  rpn_correct_nanOps env vals ndx hv e hb
+
+/-- **jacobian_nan_unselected_branch (the known finding as a theorem).** For `if_else(x >= 1, x, 1/(x − 2))` at `x = 2`
+(a well-formed operator list, as Python builds it): the value is 2 (selected branch), the formal derivative `D` —
+which selects branch-wise — is 1, but the expression `reverse_sd` returns evaluates to NaN: it ADDS
+`if_else(c, 0, 1) · (−1/(x−2)²)`, and `0 · NaN = NaN`. So `reverseSd_is_derivative` does NOT extend to a value domain with
+NaN; the compiled Jacobian entry of such a constraint is NaN at such a point (reproduced on the implementation:
+`corpus/C15/ite-unselected-branch-nan-jacobian.json`, known finding `jacobian-nan-unselected-branch`). -/
+theorem jacobian_nan_unselected_branch :
+    wellFormed nanWitness = true ∧ denote nanWitness = some nanWitnessTree ∧
+    eval nanOps nanEnv nanWitnessTree = .fin 2 ∧
+    eval nanOps nanEnv (D 0 nanWitnessTree) = .fin 1 ∧
+    ((reverseSd nanWitness).bind (jacOf · 0)).map (fun s => eval nanOps nanEnv s.toExpr) = some .nan := by
+  refine ⟨?_, ?_, ?_, ?_, ?_⟩ <;> decide +kernel
 
 end Wntr.Aml
